@@ -31,7 +31,8 @@ import WcModel.Proofs.GlobSplitShape
                            the base part — the exception is REAL, `empty_after_base_witness`
   and the connection `C05_partial_split` / `C05_partial_split_results`: `C05_partial` with
   `WFParts`, `TopOK.drive`, `TopOK.litText` discharged (and `NoLong` from "GLOBSTARLONG not set"
-  in `C05_partial_split_flags`).
+  in `C05_partial_split_flags`); `C05_main_split` / `_flags` / `_results` are the same without
+  the `SegAgree` hypothesis (a theorem since the D14 repair, `segAgree_all`).
 -/
 namespace WcModel.C05
 
@@ -130,8 +131,8 @@ theorem split_TopOK (c : WalkCfg) (fs : FS) (f : Flags) (isBytes : Bool) (p : Li
 /-- **C05_partial for split patterns**: `C05_partial` with `WFParts`, `TopOK.drive` and
     `TopOK.litText` discharged — `parts` is whatever `_GlobSplit(p, f).split()` returns.
     Remaining hypotheses: no FOLLOW, fuel above the tree height, no `***` part, `SegAgree`
-    (excludes D14), the root is a directory with separator-free entry names, `firstDir`
-    (excludes D17). -/
+    (it excluded D14; a theorem since the repair — `C05_main_split` below drops it), the root
+    is a directory with separator-free entry names, `firstDir` (excludes D17). -/
 theorem C05_partial_split (c : WalkCfg) (fs : FS) (hc : c.followLinks = false) (fuel : Nat)
     (hf : fs.top.height < fuel) (f : Flags) (isBytes : Bool) (p : List Char) (parts : List GPart)
     (hs : globSplit f isBytes p = .ok parts) (hl : NoLong parts) (hag : SegAgree fs c parts)
@@ -170,6 +171,48 @@ theorem C05_partial_split_results (w : WCtx) (fs : FS) (hc : w.followLinks = fal
       ∃ v, DenotesTop fs w.toWalkCfg parts v ∧ isExcluded w v = false ∧ x = formatPath w (dirOnlyOf parts) v :=
   C05_partial_results w fs hc fuel hf parts hl (globSplit_WFParts f isBytes p parts hs) hag
     (split_TopOK w.toWalkCfg fs f isBytes p parts hs rootDir rootNames firstDir) x
+
+/-- **C05_main_split** = `C05_partial_split` WITHOUT `SegAgree` (`segAgree_all`, since the D14
+    repair): for every pattern string and flag word, with `parts` what `_GlobSplit` returns, the
+    walker's candidates are exactly the denoted paths.  Remaining hypotheses: no FOLLOW, fuel
+    above the tree height, no `***` part, the root is a directory with separator-free entry
+    names, `firstDir` (excludes D17). -/
+theorem C05_main_split (c : WalkCfg) (fs : FS) (hc : c.followLinks = false) (fuel : Nat)
+    (hf : fs.top.height < fuel) (f : Flags) (isBytes : Bool) (p : List Char) (parts : List GPart)
+    (hs : globSplit f isBytes p = .ok parts) (hl : NoLong parts)
+    (rootDir : fs.locIsDir (some fs.cwd) = true)
+    (rootNames : ∀ o ∈ entriesOf fs fs.rootDir, ∀ ch ∈ o.name, ch ≠ '/')
+    (firstDir : ∀ p0 q rest, parts = p0 :: q :: rest → p0.isMagic = false → asWritten p0.pat.text = false →
+      ∀ o ∈ entriesOf fs fs.rootDir, segOK c.caseSensitive p0.pat o.name = true → o.isDir = true)
+    (v : Y) :
+    v ∈ results (globPattern c fs fuel parts) ↔ DenotesTop fs c parts v :=
+  C05_partial_split c fs hc fuel hf f isBytes p parts hs hl (segAgree_all fs c parts) rootDir rootNames firstDir v
+
+/-- … with `NoLong` discharged too when GLOBSTARLONG is not among the flags -/
+theorem C05_main_split_flags (c : WalkCfg) (fs : FS) (hc : c.followLinks = false) (fuel : Nat)
+    (hf : fs.top.height < fuel) (f : Flags) (hfl : f.globstarlong = false) (isBytes : Bool) (p : List Char)
+    (parts : List GPart) (hs : globSplit f isBytes p = .ok parts)
+    (rootDir : fs.locIsDir (some fs.cwd) = true)
+    (rootNames : ∀ o ∈ entriesOf fs fs.rootDir, ∀ ch ∈ o.name, ch ≠ '/')
+    (firstDir : ∀ p0 q rest, parts = p0 :: q :: rest → p0.isMagic = false → asWritten p0.pat.text = false →
+      ∀ o ∈ entriesOf fs fs.rootDir, segOK c.caseSensitive p0.pat o.name = true → o.isDir = true)
+    (v : Y) :
+    v ∈ results (globPattern c fs fuel parts) ↔ DenotesTop fs c parts v :=
+  C05_partial_split_flags c fs hc fuel hf f hfl isBytes p parts hs (segAgree_all fs c parts) rootDir rootNames firstDir v
+
+/-- … and the strings `glob()` returns for that pattern -/
+theorem C05_main_split_results (w : WCtx) (fs : FS) (hc : w.followLinks = false) (fuel : Nat)
+    (hf : fs.top.height < fuel) (f : Flags) (isBytes : Bool) (p : List Char) (parts : List GPart)
+    (hs : globSplit f isBytes p = .ok parts) (hl : NoLong parts)
+    (rootDir : fs.locIsDir (some fs.cwd) = true)
+    (rootNames : ∀ o ∈ entriesOf fs fs.rootDir, ∀ ch ∈ o.name, ch ≠ '/')
+    (firstDir : ∀ p0 q rest, parts = p0 :: q :: rest → p0.isMagic = false → asWritten p0.pat.text = false →
+      ∀ o ∈ entriesOf fs fs.rootDir, segOK w.caseSensitive p0.pat o.name = true → o.isDir = true)
+    (x : List Char) :
+    x ∈ perPattern w fs fuel parts ↔
+      ∃ v, DenotesTop fs w.toWalkCfg parts v ∧ isExcluded w v = false ∧ x = formatPath w (dirOnlyOf parts) v :=
+  C05_partial_split_results w fs hc fuel hf f isBytes p parts hs hl (segAgree_all fs w.toWalkCfg parts)
+    rootDir rootNames firstDir x
 
 /-! ### witnesses and non-vacuity -/
 
@@ -275,7 +318,7 @@ example : ∃ parts, globSplit { globstar := true, extmatch := true } false "/a/
       have := (split_adjacent_globstar _ _ _ _ h pre a b post hp ha hb).2.2
       rcases this with h1 | h1 <;> cases h1
 
-/-- non-vacuity of `C05_partial_split`: the pattern `a/b` (split by `globSplit`, not written by
+/-- non-vacuity of `C05_main_split`: the pattern `a/b` (split by `globSplit`, not written by
     hand) on the tree `tOk` satisfies every remaining hypothesis -/
 theorem split_ab : globSplit {} false "a/b".toList =
     .ok [⟨.lit "a".toList, false, false, false, true, false⟩, ⟨.lit "b".toList, false, false, false, false, false⟩] := by
@@ -286,10 +329,7 @@ example (v : Y) :
       ⟨.lit "b".toList, false, false, false, false, false⟩]) ↔
     DenotesTop tOk wc [⟨.lit "a".toList, false, false, false, true, false⟩,
       ⟨.lit "b".toList, false, false, false, false, false⟩] v := by
-  apply C05_partial_split_flags wc tOk rfl 6 (by decide +kernel) {} rfl false "a/b".toList _ split_ab
-  · intro p hp d o _
-    simp at hp
-    rcases hp with rfl | rfl <;> rfl
+  apply C05_main_split_flags wc tOk rfl 6 (by decide +kernel) {} rfl false "a/b".toList _ split_ab
   · decide +kernel
   · decide +kernel
   · intro p0 q rest h _ _
